@@ -1538,6 +1538,29 @@ impl<'a> G01<'a> {
         ])
     }
 
+    /// a promise whose body forces the promise itself (R7RS 4.2.5): the value delivered first
+    /// wins, whatever the outer activations of the body return afterwards
+    fn reentrant_promise(&mut self) -> Sx {
+        let c = self.fresh("c");
+        let p = self.fresh("q");
+        let n = 1 + self.rng.usize(4);
+        let text = match self.rng.below(3) {
+            0 => format!(
+                "(let (({c} {n}) ({p} #f)) (set! {p} (delay (if (<= {c} 0) {c} (begin (set! {c} (- {c} 1)) (force {p}) (set! {c} (+ {c} 2)) {c})))) (list (force {p}) (force {p}) {c}))",
+                c = c, p = p, n = n
+            ),
+            1 => format!(
+                "(letrec (({c} 0) ({p} (delay (begin (set! {c} (+ {c} 1)) (if (> {c} {n}) {c} (force {p})))))) (list (force {p}) (begin (set! {c} 100) (force {p})) {c}))",
+                c = c, p = p, n = n
+            ),
+            _ => format!(
+                "(let (({c} 0) ({p} #f)) (set! {p} (delay (begin (set! {c} (+ {c} 1)) (if (< {c} {n}) (list 'outer (force {p}) {c}) (list 'inner {c}))))) (list (force {p}) {c} (force {p})))",
+                c = c, p = p, n = n
+            ),
+        };
+        crate::sx::read_one(&text).expect("reentrant promise text")
+    }
+
     pub fn top_form(&mut self) -> Sx {
         self.cur_level = usize::MAX;
         if self.rng.below(1000) < self.opt.fail_permille {
@@ -1545,6 +1568,9 @@ impl<'a> G01<'a> {
         }
         if self.rng.chance(1, 12) {
             return self.define_factory();
+        }
+        if self.rng.chance(1, 30) {
+            return self.reentrant_promise();
         }
         if !self.forward.is_empty() && self.rng.chance(1, 3) {
             let v = self.forward[0].clone();
